@@ -22,6 +22,7 @@ RULE = (
     "or string, illegal character, truncation) is compiled first and a text that only a state-keeping lexer would accept "
     "follows). Judged only when the independent recogniser "
     "rejects the text. distinct_nontrivial = distinct rejected texts."
+    ' Added later: glue (two neighbours without the blank), invisible characters between / glued to / inside tokens, a comment between the two words of a two-word keyword, a line break inside a string literal, junk 70 000 .. 1 200 000 characters behind a complete definition.'
 )
 ASSUMPTIONS = [
     "the independent recogniser (pyabv/ref) decides what is outside the documented grammar; inputs it calls ambiguous "
